@@ -181,6 +181,9 @@ func (m Mode) String() string {
 	return s
 }
 
+// ReadErrorsFirst: Parse reads Errors() once between Build and ParseProgram (set per run by single-task engines).
+var ReadErrorsFirst bool
+
 // Parse builds a parser from pb for src and parses, recovering panics.
 func Parse(pb *parser.Builder, src string) (out ParseOutcome) {
 	defer func() {
@@ -191,6 +194,9 @@ func Parse(pb *parser.Builder, src string) (out ParseOutcome) {
 	}()
 	p := pb.Build(src)
 	out.Parser = p
+	if ReadErrorsFirst {
+		_ = p.Errors() // a host that looks at the (still empty) error list of the fresh parser before parsing
+	}
 	prog, err := p.ParseProgram()
 	out.Program, out.Err = prog, err
 	out.Errors = p.Errors()
